@@ -277,7 +277,32 @@ def compression(P, R, f, out, posv, lv, body):
         run = rv[0] if rv else None
         ok = any(is_var(g[0], run) and ((g[1] == '>' and const_of(g[2]) >= 1) or (g[1] == '>=' and const_of(g[2]) >= 2)) for g in f.guards(s.bid))
         R.ob('C12.GRD.2', ok, s, '"::" replaces only runs of at least two zero groups (run length %s): a lone leading zero group must not become "0::"' % run, key='run>=2')
-        okc = same(s.ev['rhs'].get('l', {}), {'k': 'var', 'name': run}) and const_of(s.ev['rhs'].get('r')) == 1 and s.ev['rhs'].get('op') == '-'
+        # total advance over the compressed groups = the run length: `lv += run - 1` and then the loop's own step, or
+        # `lv += run` with no step on the way back to the loop test
+        rhs = s.ev['rhs']
+        k = 0 if is_var(rhs, run) else (-const_of(rhs.get('r')) if rhs.get('k') == 'bin' and rhs.get('op') == '-' and is_var(rhs.get('l'), run) and isinstance(const_of(rhs.get('r')), int) else
+                                        const_of(rhs.get('r')) if rhs.get('k') == 'bin' and rhs.get('op') == '+' and is_var(rhs.get('l'), run) and isinstance(const_of(rhs.get('r')), int) else None)
+        heads = [b for b in f.blocks if f.term_cond(b) is not None and any(is_var(x, lv) for x in walk(f.term_cond(b))) and b in f.reach([s.bid]) and s.bid in f.reach([b])
+                 and any(e.dst not in f.reach([s.bid]) or s.bid not in f.reach([e.dst]) for e in f.out[b])]
+        okc = False
+        if k is not None and heads:
+            counts = set()
+            work = [(s.bid, s.idx + 1, 0)]
+            seen = set()
+            while work:
+                b, i0, cnt = work.pop()
+                if (b, i0, cnt) in seen or cnt > 3:
+                    continue
+                seen.add((b, i0, cnt))
+                for t in f.block_sites(b)[i0:]:
+                    if t.ev['k'] == 'store' and is_var(t.ev.get('lhs'), lv):
+                        cnt += 1 if t.ev.get('op') == '++' else 9
+                for e in f.out[b]:
+                    if e.dst in heads:
+                        counts.add(cnt)
+                    else:
+                        work.append((e.dst, 0, cnt))
+            okc = counts == {-k}
         R.ob('C12.GRD.2', okc, s, 'the compressed groups are skipped exactly (advance by run - 1 plus the loop step)', key='skip')
         pos_ok = any(is_var(g[0], lv) and g[1] == '==' and is_var(g[2]) for g in f.guards(s.bid))
         R.ob('C12.GRD.2', pos_ok, s, 'compression happens at the start of the longest run', key='at-start', nontrivial=False)
